@@ -646,6 +646,9 @@ func Execute(s *Scenario, dir string) (res *Result) {
 				}
 				if err == nil {
 					x.count("announcements_"+a.Mode, 1)
+					if ni == x.ann {
+						x.count("announcements_sent_by_announcer", 1)
+					}
 				}
 			}
 		}
@@ -656,61 +659,69 @@ func Execute(s *Scenario, dir string) (res *Result) {
 	// final honest announcement round (conformant)
 	if s.Nodes[0].Kind == "honest" {
 		an := x.nodes[x.ann]
-		if len(an.Live()) == 0 {
-			// the honest peer stays reachable; the service re-dials on its own timers
-			if !x.waitFor(func() bool { return len(an.Live()) > 0 }, 75*time.Second) {
-				res.Verdict, res.What = "inconclusive", "the service has no connection to the honest node and did not re-dial it within 75 s"
-				res.Events = x.rig.Log.Tail(40)
-				return
-			}
-			x.count("waited_for_honest_connection", 1)
-			if !x.quiesce("after honest re-connection") {
-				return
-			}
-		}
-		x.w.ExtendHonest(1, genesis)
-		an.SetChain(x.w.Honest)
-		for _, c := range an.Live() {
-			if c.Announce() == nil {
-				x.count("final_round_announcements", 1)
-				if c.WantsHeaders() {
-					x.count("final_round_by_headers", 1)
-				} else {
-					x.count("final_round_by_inv", 1)
+		// A peer that dialled in cannot be re-dialled by the service. If the service itself dropped such a peer after it
+		// had announced blocks, nothing more will ever happen: that is not "peer unreachable", it is the state to judge.
+		droppedInbound := s.Nodes[x.ann].Inbound && len(an.Live()) == 0 && len(an.Conns()) > 0 && x.res.Counters["announcements_sent_by_announcer"] > 0
+		if droppedInbound {
+			x.count("inbound_announcer_dropped_by_service", 1)
+			x.checkConverged()
+		} else {
+			if len(an.Live()) == 0 {
+				// the honest peer stays reachable; the service re-dials on its own timers
+				if !x.waitFor(func() bool { return len(an.Live()) > 0 }, 75*time.Second) {
+					res.Verdict, res.What = "inconclusive", "the service has no connection to the honest node and did not re-dial it within 75 s"
+					res.Events = x.rig.Log.Tail(40)
+					return
 				}
-			}
-		}
-		if !x.quiesce("final announcement round") {
-			return
-		}
-		// Bounded progress with slack: hand-offs between the service's goroutines (a closed connection's done
-		// message, a re-dial) are not visible to the barrier and can lag under load. Before concluding
-		// "not converged", give the service a few more rounds: pause, quiesce, and let the honest peer announce
-		// one more block. A genuine failure to converge persists through every round.
-		for attempt := 0; attempt < 6 && !x.converged(); attempt++ {
-			x.count("extra_convergence_rounds", 1)
-			time.Sleep(time.Duration(150*(attempt+1)) * time.Millisecond)
-			if !x.quiesce("extra convergence round") {
-				return
-			}
-			if x.converged() {
-				break
-			}
-			if len(an.Live()) == 0 && !x.waitFor(func() bool { return len(an.Live()) > 0 }, 30*time.Second) {
-				break
+				x.count("waited_for_honest_connection", 1)
+				if !x.quiesce("after honest re-connection") {
+					return
+				}
 			}
 			x.w.ExtendHonest(1, genesis)
 			an.SetChain(x.w.Honest)
 			for _, c := range an.Live() {
-				_ = c.Announce()
+				if c.Announce() == nil {
+					x.count("final_round_announcements", 1)
+					if c.WantsHeaders() {
+						x.count("final_round_by_headers", 1)
+					} else {
+						x.count("final_round_by_inv", 1)
+					}
+				}
 			}
-			if !x.quiesce("extra convergence round") {
+			if !x.quiesce("final announcement round") {
 				return
 			}
-		}
-		x.checkConverged()
-		if s.ServeQueries > 0 && x.res.Verdict == "held" {
-			x.serveQueries()
+			// Bounded progress with slack: hand-offs between the service's goroutines (a closed connection's done
+			// message, a re-dial) are not visible to the barrier and can lag under load. Before concluding
+			// "not converged", give the service a few more rounds: pause, quiesce, and let the honest peer announce
+			// one more block. A genuine failure to converge persists through every round.
+			for attempt := 0; attempt < 6 && !x.converged(); attempt++ {
+				x.count("extra_convergence_rounds", 1)
+				time.Sleep(time.Duration(150*(attempt+1)) * time.Millisecond)
+				if !x.quiesce("extra convergence round") {
+					return
+				}
+				if x.converged() {
+					break
+				}
+				if len(an.Live()) == 0 && !x.waitFor(func() bool { return len(an.Live()) > 0 }, 30*time.Second) {
+					break
+				}
+				x.w.ExtendHonest(1, genesis)
+				an.SetChain(x.w.Honest)
+				for _, c := range an.Live() {
+					_ = c.Announce()
+				}
+				if !x.quiesce("extra convergence round") {
+					return
+				}
+			}
+			x.checkConverged()
+			if s.ServeQueries > 0 && x.res.Verdict == "held" {
+				x.serveQueries()
+			}
 		}
 	}
 	x.scenarioSpecificChecks("end")
